@@ -102,9 +102,13 @@ func (c *chain) finalize(txs [][]byte) *abci.ResponseFinalizeBlock {
 
 // deployRuntime plants a contract with the given runtime code (fixture time, through keepers).
 func (c *chain) deployRuntime(name string, runtime []byte) common.Address {
-	ctx := c.s.CurrentContext
 	h := sha256.Sum256([]byte("verif-contract-" + name))
-	addr := common.BytesToAddress(h[:20])
+	return c.deployRuntimeAt(common.BytesToAddress(h[:20]), runtime)
+}
+
+// deployRuntimeAt: the same at a chosen address
+func (c *chain) deployRuntimeAt(addr common.Address, runtime []byte) common.Address {
+	ctx := c.s.CurrentContext
 	ak := c.s.ChainApp.AccountKeeper()
 	acc := ak.NewAccountWithAddress(ctx, addr.Bytes())
 	_ = acc.SetSequence(1)
